@@ -54,18 +54,54 @@ theorem ofInt_small_deg (i : Int) (h : i.natAbs < 2^53) : degenerate (ofInt i) =
     | zero => omega
     | succ n => simp [isZero]
 
-/-- ToInt32 (§9.5): model = spec whenever the truncated number fits int64. -/
-theorem toInt32_partial (E : Env) (v : Val) (hwf : WF v) (hr : InRange (toFloat E v)) :
-    toInt32 E v = Spec.toInt32 E v := by
-  have slow : ∀ f : FV, InRange f →
-      (if degenerate f then (0:Int) else wrapS 32 (goInt64 f)) =
-      (if isNaN f || isInf f || isZero f then (0:Int) else
-        (if truncInt f % (2^32 : Int) ≥ (2^31 : Int) then truncInt f % (2^32 : Int) - (2^32 : Int) else truncInt f % (2^32 : Int))) := by
-    intro f hf
-    rw [deg_eq]
-    cases hd : degenerate f with
-    | true => simp
-    | false => simp [goInt64_inrange f hd hf, wrapS]
+theorem truncInt_mod2p32 (s : Bool) (m : Nat) (e : Int) :
+    truncInt (mod2p32 (.fin s m e)) =
+      (if s then -((truncAbs m e % 2^32 : Nat) : Int) else ((truncAbs m e % 2^32 : Nat) : Int)) := by
+  unfold mod2p32
+  by_cases he : e ≥ 0
+  · simp only [he, if_true, truncInt, truncAbs]
+    simp
+  · simp only [he, if_false, truncInt, truncAbs]
+    have : (m % (2 ^ 32 * 2 ^ (-e).toNat)) / 2 ^ (-e).toNat = m / 2 ^ (-e).toNat % 2 ^ 32 := by
+      rw [Nat.mul_comm]
+      exact Nat.mod_mul_right_div_self m (2 ^ (-e).toNat) (2 ^ 32)
+    rw [this]
+
+/-- the reduced value always fits int64, so Go's conversion is exact truncation -/
+theorem toInt64Modulo32_eq (s : Bool) (m : Nat) (e : Int) :
+    toInt64Modulo32 (.fin s m e) =
+      (if s then -((truncAbs m e % 2^32 : Nat) : Int) else ((truncAbs m e % 2^32 : Nat) : Int)) := by
+  have h := truncInt_mod2p32 s m e
+  have hlt : truncAbs m e % 2^32 < 2^32 := Nat.mod_lt _ (by decide)
+  unfold toInt64Modulo32 goInt64
+  have hfin : ∃ s' m' e', mod2p32 (.fin s m e) = .fin s' m' e' := by
+    by_cases he : e ≥ 0
+    · exact ⟨s, (m * 2 ^ e.toNat) % 2 ^ 32, 0, by simp only [mod2p32, he, if_true]⟩
+    · exact ⟨s, m % (2 ^ 32 * 2 ^ (-e).toNat), e, by simp only [mod2p32, he, if_false]⟩
+  obtain ⟨s', m', e', hf⟩ := hfin
+  rw [hf] at h ⊢
+  simp only
+  rw [h]
+  cases s <;> simp <;> omega
+
+private theorem slow32 (f : FV) :
+    (if degenerate f then (0:Int) else wrapS 32 (toInt64Modulo32 f)) =
+    (if isNaN f || isInf f || isZero f then (0:Int) else
+      (if truncInt f % (2^32 : Int) ≥ (2^31 : Int) then truncInt f % (2^32 : Int) - (2^32 : Int) else truncInt f % (2^32 : Int))) := by
+  rw [deg_eq]
+  cases hd : degenerate f with
+  | true => simp
+  | false =>
+    cases f with
+    | nan => simp [degenerate, isNaN] at hd
+    | inf s => simp [degenerate, isNaN, isInf] at hd
+    | fin s m e =>
+      simp only [Bool.false_eq_true, if_false, toInt64Modulo32_eq, wrapS, truncInt]
+      cases s <;> simp <;> omega
+
+/-- ToInt32 (§9.5): model = spec for EVERY value (since fix 919cc4b reduces modulo 2^32 before the
+    int64 conversion, the former hypothesis |x| < 2^63 is gone). -/
+theorem toInt32_eq (E : Env) (v : Val) (hwf : WF v) : toInt32 E v = Spec.toInt32 E v := by
   have fast : ∀ k i, i.natAbs < 2^53 → -(2^31 : Int) ≤ i → i < 2^31 → wrapS 32 i = Spec.toInt32 E (.int k i) := by
     intro k i h1 h2 h3
     simp only [Spec.toInt32, Spec.toNumber, Spec.signFloorAbs, deg_eq, ofInt_small_deg i h1, truncInt_ofInt_small i h1, wrapS]
@@ -77,7 +113,191 @@ theorem toInt32_partial (E : Env) (v : Val) (hwf : WF v) (hr : InRange (toFloat 
     cases k <;> simp only [toInt32] <;>
       first
         | (simp only [WF] at hwf; first | exact fast _ i (by omega) (by omega) (by omega) | (rw [← fast _ i (by omega) (by omega) (by omega)]; simp [wrapS]; omega))
-        | exact slow _ hr
-  | _ => exact slow _ hr
+        | exact slow32 (toFloat E (.int _ i))
+  | undef => exact slow32 (toFloat E .undef)
+  | null => exact slow32 (toFloat E .null)
+  | bool b => exact slow32 (toFloat E (.bool b))
+  | f64 x => exact slow32 (toFloat E (.f64 x))
+  | str t => exact slow32 (toFloat E (.str t))
+
+private theorem slowU (bits : Nat) (hb : bits = 32 ∨ bits = 16) (f : FV) :
+    (if degenerate f then (0:Int) else wrapU bits (toInt64Modulo32 f)) =
+    (if isNaN f || isInf f || isZero f then (0:Int) else truncInt f % (2^bits : Int)) := by
+  rw [deg_eq]
+  cases hd : degenerate f with
+  | true => simp
+  | false =>
+    cases f with
+    | nan => simp [degenerate, isNaN] at hd
+    | inf s => simp [degenerate, isNaN, isInf] at hd
+    | fin s m e =>
+      simp only [Bool.false_eq_true, if_false, toInt64Modulo32_eq, wrapU, truncInt]
+      rcases hb with hb | hb <;> subst hb <;> cases s <;> simp <;> omega
+
+/-- ToUint32 (§9.6) for every value -/
+theorem toUint32_eq (E : Env) (v : Val) (hwf : WF v) : toUint32 E v = Spec.toUint32 E v := by
+  have fast : ∀ k i, i.natAbs < 2^53 → wrapU 32 i = Spec.toUint32 E (.int k i) := by
+    intro k i h1
+    simp only [Spec.toUint32, Spec.toNumber, Spec.signFloorAbs, deg_eq, ofInt_small_deg i h1, truncInt_ofInt_small i h1, wrapU]
+    by_cases h0 : i = 0
+    · subst h0; simp
+    · simp [h0]
+  cases v with
+  | int k i =>
+    cases k <;> simp only [toUint32] <;>
+      first
+        | (simp only [WF] at hwf; first | exact fast _ i (by omega) | (rw [← fast _ i (by omega)]; simp [wrapU]; omega))
+        | exact slowU 32 (Or.inl rfl) (toFloat E (.int _ i))
+  | undef => exact slowU 32 (Or.inl rfl) (toFloat E .undef)
+  | null => exact slowU 32 (Or.inl rfl) (toFloat E .null)
+  | bool b => exact slowU 32 (Or.inl rfl) (toFloat E (.bool b))
+  | f64 x => exact slowU 32 (Or.inl rfl) (toFloat E (.f64 x))
+  | str t => exact slowU 32 (Or.inl rfl) (toFloat E (.str t))
+
+/-- ToUint16 (§9.7) for every value -/
+theorem toUint16_eq (E : Env) (v : Val) (hwf : WF v) : toUint16 E v = Spec.toUint16 E v := by
+  have fast : ∀ k i, i.natAbs < 2^53 → wrapU 16 i = Spec.toUint16 E (.int k i) := by
+    intro k i h1
+    simp only [Spec.toUint16, Spec.toNumber, Spec.signFloorAbs, deg_eq, ofInt_small_deg i h1, truncInt_ofInt_small i h1, wrapU]
+    by_cases h0 : i = 0
+    · subst h0; simp
+    · simp [h0]
+  cases v with
+  | int k i =>
+    cases k <;> simp only [toUint16] <;>
+      first
+        | (simp only [WF] at hwf; first | exact fast _ i (by omega) | (rw [← fast _ i (by omega)]; simp [wrapU]; omega))
+        | exact slowU 16 (Or.inr rfl) (toFloat E (.int _ i))
+  | undef => exact slowU 16 (Or.inr rfl) (toFloat E .undef)
+  | null => exact slowU 16 (Or.inr rfl) (toFloat E .null)
+  | bool b => exact slowU 16 (Or.inr rfl) (toFloat E (.bool b))
+  | f64 x => exact slowU 16 (Or.inr rfl) (toFloat E (.f64 x))
+  | str t => exact slowU 16 (Or.inr rfl) (toFloat E (.str t))
+
+/-- non-vacuity: the witness of the repaired defect, (2^63+2048)|0 = 2048 on both sides -/
+example : toInt32 ⟨fun _ => .nan⟩ (.f64 (.fin false (2^52+1) 11)) = 2048 := by decide
+
+theorem cmpReal_nan_l (y : FV) : cmpReal .nan y = none := by cases y <;> rfl
+theorem cmpReal_nan_r (x : FV) : cmpReal x .nan = none := by cases x <;> rfl
+
+theorem eqNum_guard (x y : FV) : (if isNaN x || isNaN y then false else eqNum x y) = eqNum x y := by
+  cases x <;> cases y <;> simp [isNaN, eqNum, cmpReal]
+
+theorem evaluateDivide_eq (l r : FV) : evaluateDivide l r = Spec.divide l r := by
+  cases l with
+  | nan => cases r <;> simp [evaluateDivide, Spec.divide, div, isNaN]
+  | inf s =>
+    cases r with
+    | nan => simp [evaluateDivide, Spec.divide, div, isNaN]
+    | inf t => simp [evaluateDivide, Spec.divide, div, isNaN, isInf]
+    | fin t m e =>
+      cases s <;> cases t <;> simp [evaluateDivide, Spec.divide, div, isNaN, isInf, isZero, signBit] <;>
+        (cases m <;> simp [isZero])
+  | fin s m e =>
+    cases r with
+    | nan => simp [evaluateDivide, Spec.divide, div, isNaN]
+    | inf t => cases s <;> cases t <;> simp [evaluateDivide, Spec.divide, div, isNaN, isInf, isZero, signBit, zero, negZero] <;> (cases m <;> simp [isZero])
+    | fin t m2 e2 =>
+      cases m2 with
+      | zero =>
+        cases m with
+        | zero => simp [evaluateDivide, Spec.divide, div, isNaN, isInf, isZero]
+        | succ k => cases s <;> cases t <;> simp [evaluateDivide, Spec.divide, div, isNaN, isInf, isZero, signBit]
+      | succ k2 =>
+        simp [evaluateDivide, Spec.divide, isNaN, isInf, isZero]
+
+theorem eqNum_true_not_nan (x y : FV) (h : eqNum x y = true) : isNaN x = false ∧ isNaN y = false := by
+  cases x <;> cases y <;> simp_all [eqNum, cmpReal, isNaN]
+
+theorem kindEqual_eq_strict (E : Env) (x y : Val) (h : x.kind = y.kind) :
+    kindEqual E x y = Spec.strictEq E x y := by
+  cases x <;> cases y <;> simp [Val.kind] at h <;>
+    first
+      | rfl
+      | (simp only [kindEqual, Spec.strictEq, Spec.isNum, toFloat, Spec.toNumber]; simp; exact eqNum_true_not_nan _ _)
+
+theorem lt_guard (x y : FV) :
+    (if isNaN x || isNaN y then Tri.u else if lt x y then Tri.t else Tri.f) =
+      (match cmpReal x y with | none => Tri.u | some Ordering.lt => Tri.t | some _ => Tri.f) := by
+  cases x <;> cases y <;> simp [isNaN, cmpReal, lt] <;> (repeat' split) <;> simp_all
+
+theorem lessThan_eq (E : Env) (x y : Val) : calculateLessThan E x y = Spec.lessThan E strLt x y := by
+  cases x <;> cases y <;> simp only [calculateLessThan, Spec.lessThan, toFloat, Spec.toNumber] <;>
+    first | rfl | exact lt_guard _ _
+
+theorem strictEq_diff_kind (E : Env) (x y : Val) (h : x.kind ≠ y.kind) : Spec.strictEq E x y = false := by
+  cases x <;> cases y <;> simp [Val.kind] at h <;> simp [Spec.strictEq, Spec.isNum]
+
+theorem strict_eq (E : Env) (x y : Val) :
+    (if x.kind = y.kind then kindEqual E x y else false) = Spec.strictEq E x y := by
+  by_cases h : x.kind = y.kind
+  · simp only [h, if_true]; exact kindEqual_eq_strict E x y h
+  · simp only [h, if_false]; exact (strictEq_diff_kind E x y h).symm
+
+theorem loose_eq (E : Env) (x y : Val) : looseEq E 3 x y = Spec.looseEq E 4 x y := by
+  cases x <;> cases y <;>
+    simp [looseEq, Spec.looseEq, Val.kind, kindEqual, Spec.strictEq, Spec.isNum, Spec.isStr, Spec.isBool, Spec.isNullish,
+      toFloat, Spec.toNumber, eqNum_guard] <;>
+    first
+      | done
+      | exact eqNum_true_not_nan _ _
+
+/-- C05.comparison: every comparison operator on every pair of primitive values (any Go number
+    kind, any string): otto's calculateComparison = ES5 §11.8.1–4, §11.9.1–6 -/
+theorem comparison_eq (E : Env) (c : Cmp) (x y : Val) :
+    calculateComparison E c x y = Spec.compare E strLt c x y := by
+  cases c <;> simp only [calculateComparison, Spec.compare, lessThan_eq, strict_eq, loose_eq]
+  · cases Spec.lessThan E strLt x y <;> rfl
+  · cases Spec.lessThan E strLt y x <;> rfl
+  · cases Spec.lessThan E strLt y x <;> rfl
+  · cases Spec.lessThan E strLt x y <;> rfl
+
+theorem alignInt_zero (s : Bool) (e emin : Int) : alignInt s 0 e emin = 0 := by
+  unfold alignInt; cases s <;> simp
+
+theorem alignInt_ne_zero (s : Bool) (k : Nat) (e emin : Int) : alignInt s (k+1) e emin ≠ 0 := by
+  unfold alignInt
+  have h : 0 < (k+1) * 2 ^ (e - emin).toNat := Nat.mul_pos (Nat.succ_pos k) (Nat.two_pow_pos _)
+  generalize (k+1) * 2 ^ (e - emin).toNat = n at h
+  cases s <;> simp <;> omega
+
+theorem sv_fv (a b : FV) :
+    (if isNaN a && isNaN b then true
+     else if eqNum a b then (if isZero a then signBit a == signBit b else true) else false) =
+    (if isNaN a ∧ isNaN b then true
+     else if isZero a ∧ isZero b then decide (signBit a = signBit b) else eqNum a b) := by
+  cases a with
+  | nan => cases b <;> simp [isNaN, eqNum, cmpReal, isZero]
+  | inf s => cases b <;> simp [isNaN, eqNum, cmpReal, isZero] <;> (try (rename_i t; cases s <;> cases t <;> simp))
+  | fin s m e =>
+    cases b with
+    | nan => simp [isNaN, eqNum, cmpReal, isZero]
+    | inf t => simp [isNaN, eqNum, cmpReal, isZero]; cases t <;> simp
+    | fin t m2 e2 =>
+      cases m with
+      | zero =>
+        cases m2 with
+        | zero => simp [isNaN, eqNum, cmpReal, isZero, alignInt_zero, signBit]; cases s <;> cases t <;> rfl
+        | succ k =>
+          have := alignInt_ne_zero t k e2 (if e ≤ e2 then e else e2)
+          simp only [isNaN, eqNum, cmpReal, isZero, alignInt_zero, signBit]
+          simp
+          intro h
+          by_cases h1 : 0 < alignInt t (k + 1) e2 (if e ≤ e2 then e else e2)
+          · simp [h1] at h
+          · by_cases h2 : 0 = alignInt t (k + 1) e2 (if e ≤ e2 then e else e2)
+            · exact absurd h2.symm this
+            · simp [h1, h2] at h
+      | succ k => simp [isNaN, eqNum, cmpReal, isZero]
+
+/-- C05.sameValue: otto's sameValue = ES5 §9.12 on all primitive pairs -/
+theorem sameValue_eq (E : Env) (x y : Val) : sameValue E x y = Spec.sameValue E x y := by
+  cases x <;> cases y <;>
+    simp only [sameValue, Spec.sameValue, Val.kind, Spec.isNum, toFloat, Spec.toNumber] <;>
+    first
+      | rfl
+      | (simp; done)
+      | (simp only [ne_eq, not_true_eq_false, if_false, and_self, if_true]; exact sv_fv _ _)
+      | (simp only [ne_eq, not_true_eq_false, if_false]; rename_i a b; by_cases h : a = b <;> simp [h])
 
 end OttoVerif.C05.Thm
